@@ -493,6 +493,10 @@ func init() {
 						s.OK(key, p, "counted loop: "+why)
 						continue
 					}
+					if ok, why := aiCovered(c, nil, l.Header); ok {
+						s.OK(key, p, "every run ends: "+why)
+						continue
+					}
 					if ok, why := searchNextLoop(c, l); ok {
 						s.OK(key, p, "search loop: "+why)
 						continue
